@@ -356,7 +356,8 @@ def run(case, filter_factory=DirectFilter, stop_on_exception=True, observer=None
             elif item[1] in ("PRINT_DONE", "PRINT_FAILED", "PRINT_CANCELLING", "PRINT_CANCELLED", "ERROR"):
                 active = False
             try:
-                flt.h.event(item[1])
+                if hasattr(flt, "h"):          # (events only exist at the plugin layer)
+                    flt.h.event(item[1], dict(item[2]) if len(item) > 2 and item[2] else None)
             except Exception as exc:  # pylint: disable=broad-except
                 it.exception = "%s: %s" % (type(exc).__name__, exc)
         elif it.kind == "at":
